@@ -298,7 +298,7 @@ func c04MutateSchema(r *rng, root *c04JNode) string {
 		}
 	}
 	if len(objs) == 0 {
-		root.kind = "obj"
+		root.kind, root.keys, root.vals = "obj", nil, nil
 		return "force-object"
 	}
 	o := pick(r, objs)
